@@ -47,9 +47,11 @@ func processAccessClients(
 		var ip netip.Addr
 		var ipnet netip.Prefix
 		if ip, err = netip.ParseAddr(s); err == nil {
-			ips.Add(ip)
+			// The addresses of the clients are unmapped before the check, see
+			// [Server.IsBlockedClient], so do the same with the entries.
+			ips.Add(ip.Unmap())
 		} else if ipnet, err = netip.ParsePrefix(s); err == nil {
-			*nets = append(*nets, ipnet)
+			*nets = append(*nets, unmapPrefix(ipnet))
 		} else {
 			err = ValidateClientID(s)
 			if err != nil {
@@ -64,6 +66,18 @@ func processAccessClients(
 	}
 
 	return nil
+}
+
+// unmapPrefix converts a network of IPv4-mapped IPv6 addresses into the
+// corresponding IPv4 network.  All other networks are returned as they are.
+func unmapPrefix(p netip.Prefix) (unmapped netip.Prefix) {
+	const mappedPrefixLen = 96
+
+	if addr := p.Addr(); addr.Is4In6() && p.Bits() >= mappedPrefixLen {
+		return netip.PrefixFrom(addr.Unmap(), p.Bits()-mappedPrefixLen)
+	}
+
+	return p
 }
 
 // newAccessCtx creates a new accessCtx.
